@@ -5,49 +5,43 @@ import WR.C05.LemmasTree
 namespace WR.C05.Lemmas
 open WR.C05 WR.C05.Spec
 
-theorem docWs_goSpace (c : Char) (h : isDocWs c = true) : isGoSpace c = true := by
-  simp only [isDocWs, Bool.or_eq_true, beq_iff_eq] at h
-  rcases h with (((h | h) | h) | h) | h <;> subst h <;> decide
-
 theorem tag_iff (name : Str) (l : Loc) : selMatch (.tag name) l = true ↔ Matches (.tag name) l := by
   simp [selMatch, Matches, IsElem]
 
-theorem attr_iff (key val : Str) (op : AttrOp) (ic : Bool) (l : Loc) (hl : LocalOk l)
+theorem attr_iff (key val : Str) (op : AttrOp) (ic : Bool) (l : Loc)
     (hv : valOk op val = true) :
     attrMatch key val op ic l = true ↔ AttrHolds key val op ic l := by
   by_cases hne : op = .ne
   · subst hne
     simp only [attrMatch, AttrHolds, IsElem, Bool.and_eq_true, beq_iff_eq, Bool.not_eq_true',
-      ← Bool.not_eq_true, matchAttribute_iff, valMatch, eqVal_iff]
-  · have h1 : attrMatch key val op ic l = matchAttribute l.attrs key (valMatch val op ic) := by
+      ← Bool.not_eq_true, valMatch]
+    rw [attrsAny_iff l.attrs key (fun s => eqVal s val ic)]
+    simp only [eqVal_iff]
+  · have h1 : attrMatch key val op ic l = matchAttribute l.kind l.attrs key (valMatch val op ic) := by
       cases op <;> first | rfl | exact absurd rfl hne
     have h2 : AttrHolds key val op ic l ↔ IsElem l ∧ ∃ s, (key, s) ∈ l.attrs ∧ ValHolds op ic val s := by
       cases op <;> first | rfl | exact absurd rfl hne
     rw [h1, h2, matchAttribute_iff]
+    apply and_congr Iff.rfl
     constructor
-    · rintro ⟨s, hm, hs⟩
-      refine ⟨?_, s, hm, (valMatch_iff val op ic s hne hv).1 hs⟩
-      by_cases hk : l.kind = .elem
-      · exact hk
-      · rw [hl.attrs hk] at hm; simp at hm
-    · rintro ⟨_, s, hm, hs⟩
-      exact ⟨s, hm, (valMatch_iff val op ic s hne hv).2 hs⟩
+    · rintro ⟨s, hm, hs⟩; exact ⟨s, hm, (valMatch_iff val op ic s hne hv).1 hs⟩
+    · rintro ⟨s, hm, hs⟩; exact ⟨s, hm, (valMatch_iff val op ic s hne hv).2 hs⟩
 
-theorem cls_iff (name : Str) (l : Loc) (hl : LocalOk l) (hn : name.isEmpty = false) :
+theorem cls_iff (name : Str) (l : Loc) :
     selMatch (.cls name) l = true ↔ Matches (.cls name) l := by
   have : selMatch (.cls name) l = attrMatch classKey name .incl false l := by
     have e : (valMatch name AttrOp.incl false) = fun s => matchInclude name s false := by funext s; rfl
     simp [selMatch, attrMatch, e]
   rw [this, Matches]
-  exact attr_iff _ _ _ _ _ hl (by simp [valOk, hn])
+  exact attr_iff _ _ _ _ _ rfl
 
-theorem id_iff (name : Str) (l : Loc) (hl : LocalOk l) :
+theorem id_iff (name : Str) (l : Loc) :
     selMatch (.id name) l = true ↔ Matches (.id name) l := by
   have : selMatch (.id name) l = attrMatch idKey name .eq false l := by
     have e : (valMatch name AttrOp.eq false) = fun s => s == name := by funext s; rfl
     simp [selMatch, attrMatch, e]
   rw [this, Matches]
-  exact attr_iff _ _ _ _ _ hl rfl
+  exact attr_iff _ _ _ _ _ rfl
 
 theorem skips_self (ofType : Bool) (n : Node) (h : n.kind = .elem) : skips ofType n.data n = false := by
   simp [skips, h]
@@ -155,7 +149,7 @@ theorem only_iff (ofType : Bool) (l : Loc) (hl : LocalOk l) :
         have e2 := h2.2 (fun s hs' => h s (Or.inr hs'))
         simp [e1, e2]
 
-theorem empty_iff (l : Loc) (hl : LocalOk l) : selMatch .empty l = true ↔ Matches .empty l := by
+theorem empty_iff (l : Loc) : selMatch .empty l = true ↔ Matches .empty l := by
   simp only [selMatch, Matches, IsElem, Bool.and_eq_true, beq_iff_eq, emptyLoop_iff]
   rw [← children_nodes, List.forall_mem_map]
   apply and_congr Iff.rfl
@@ -163,16 +157,31 @@ theorem empty_iff (l : Loc) (hl : LocalOk l) : selMatch .empty l = true ↔ Matc
   apply forall_congr'; intro hc
   apply and_congr Iff.rfl
   apply forall_congr'; intro ht
-  simp only [isBlank, List.all_eq_true]
-  constructor
-  · intro h ch hch; exact hl.text c hc ht ch hch (h ch hch)
-  · intro h ch hch; exact docWs_goSpace ch (h ch hch)
+  simp only [isDocBlank, List.all_eq_true, isDocWs_eq]
+  exact Iff.rfl
 
 theorem root_iff (l : Loc) (hl : LocalOk l) : selMatch .root l = true ↔ Matches .root l := by
   simp only [selMatch, Matches, IsElem, Bool.and_eq_true, beq_iff_eq]
   constructor
-  · rintro ⟨hk, hd⟩; exact ⟨hk, (hl.root hk).1 hd⟩
-  · rintro ⟨hk, hp⟩; exact ⟨hk, (hl.root hk).2 hp⟩
+  · rintro ⟨⟨hk, hd⟩, hp⟩
+    refine ⟨hk, ?_⟩
+    rintro ⟨p, hpp, hpe⟩
+    rw [hpp] at hp
+    simp only [beq_iff_eq] at hp
+    rw [hp] at hpe
+    exact Kind.noConfusion hpe
+  · rintro ⟨hk, hp⟩
+    have hpath := hl.parent hk
+    cases hpar : l.parent? with
+    | none =>
+      obtain ⟨n, path⟩ := l
+      cases path with
+      | nil => exact absurd rfl hpath
+      | cons f fs => simp [Loc.parent?] at hpar
+    | some p =>
+      rcases hl.root hk p hpar with h | ⟨h1, h2⟩
+      · exact absurd ⟨p, hpar, h⟩ hp
+      · exact ⟨⟨hk, h2⟩, by simp [h1]⟩
 
 /-- two ways to split one list around an element -/
 theorem split_cases {α : Type} {as bs cs ds : List α} {s e : α} (h : as ++ s :: bs = cs ++ e :: ds) :
